@@ -31,7 +31,10 @@ pub fn def() -> PropDef {
                if the parser accepts, the reader must not say must-reject and the parser's items must equal the \
                reader's (BTOR2: every returned line re-rendered must equal the text line). Rejections of inputs \
                the reader accepts are not reported here. Non-trivial: the reader reached a verdict (accept or \
-               must-reject) on an input containing a boundary number or a limit violation. Distinct by hash.",
+               must-reject) on an input containing a boundary number or a limit violation. Distinct by hash. \
+               Beyond the listed literal types: small AIGER files with M around the limit are parsed with a caller-defined \
+               literal type (the Lit trait is public) whose MAX_CODE is 28, 29, 30 or 31; its from_code must never \
+               receive a code above MAX_CODE, M is accepted exactly when 2M+1 <= MAX_CODE.",
         assumptions: &[
             "shards alternate between a build with overflow checks and a plain release build: a wrap-around that panics in the former (C05's business) is a silently accepted wrong number in the latter",
             "the reference readers in harness/src/refs.rs follow the format descriptions; texts they do not understand yield no verdict (counted as undecided)",
@@ -396,7 +399,141 @@ fn violation_strategy() -> impl Strategy<Value = Input> {
         })
 }
 
+// ---------------------------------------------------------------------------------------------
+// A literal type of the caller (the `Lit` trait is public) whose MAX_CODE is not of the form
+// 2^k - 1: the header limit has to be derived from MAX_CODE for even and odd values alike.
+
+thread_local! {
+    static MAX_CODE_SEEN: std::cell::Cell<usize> = const { std::cell::Cell::new(0) };
+}
+
+#[derive(Clone, Copy, PartialEq, Eq, Hash, Debug)]
+struct Small<const MAX: usize>(u8);
+
+impl<const MAX: usize> flussab_aiger::Lit for Small<MAX> {
+    const MAX_CODE: usize = MAX;
+    fn from_code(code: usize) -> Self {
+        MAX_CODE_SEEN.with(|m| m.set(m.get().max(code)));
+        Small(code as u8)
+    }
+    fn code(self) -> usize {
+        self.0 as usize
+    }
+}
+
+#[derive(Serialize, Deserialize, Clone, Debug, PartialEq, Eq, Hash)]
+pub struct CustomLitCase {
+    pub binary: bool,
+    /// MAX_CODE of the literal type: 28..=31.
+    pub max_code: u8,
+    pub m: u8,
+    pub inputs: u8,
+    pub gates: u8,
+    pub outputs: Vec<u8>,
+}
+
+fn custom_lit_text(c: &CustomLitCase) -> Vec<u8> {
+    let m = c.m as usize;
+    let (i, a) = if c.binary {
+        // binary files number inputs and gates consecutively: I + A = M
+        let a = (c.gates as usize).min(m);
+        (m - a, a)
+    } else {
+        ((c.inputs as usize).min(m), 0)
+    };
+    let mut s = format!("{} {} {} 0 {} {}\n", if c.binary { "aig" } else { "aag" }, m, i, c.outputs.len(), a).into_bytes();
+    if !c.binary {
+        for k in 1..=i {
+            s.extend_from_slice(format!("{}\n", 2 * k).as_bytes());
+        }
+    }
+    for o in &c.outputs {
+        // literals up to 2M+1 are legal
+        s.extend_from_slice(format!("{}\n", (*o as usize) % (2 * m + 2)).as_bytes());
+    }
+    for _ in 0..a {
+        s.extend_from_slice(&[1, 0]); // gate g = (g-1) & (g-1)
+    }
+    s
+}
+
+pub fn check_custom_lit(c: &CustomLitCase, obs: &mut Obs) -> CheckResult {
+    fn parse<const MAX: usize>(binary: bool, text: &[u8]) -> Result<usize, String> {
+        if binary {
+            flussab_aiger::binary::Parser::<Small<MAX>>::from_read(text, flussab_aiger::binary::Config::default())
+                .and_then(|p| p.parse())
+                .map(|aig| aig.max_var_index)
+                .map_err(|e| e.to_string())
+        } else {
+            flussab_aiger::ascii::Parser::<Small<MAX>>::from_read(text, flussab_aiger::ascii::Config::default())
+                .and_then(|p| p.parse())
+                .map(|aig| aig.max_var_index)
+                .map_err(|e| e.to_string())
+        }
+    }
+    let text = custom_lit_text(c);
+    MAX_CODE_SEEN.with(|m| m.set(0));
+    let max_code = 28 + (c.max_code as usize % 4);
+    let r = match max_code {
+        28 => parse::<28>(c.binary, &text),
+        29 => parse::<29>(c.binary, &text),
+        30 => parse::<30>(c.binary, &text),
+        _ => parse::<31>(c.binary, &text),
+    };
+    let seen = MAX_CODE_SEEN.with(|m| m.get());
+    obs.class(format!("max-code/{max_code}"));
+    obs.class(if r.is_ok() { "accepted" } else { "rejected" });
+    let fits = 2 * c.m as usize + 1 <= max_code;
+    obs.class_if(2 * c.m as usize + 1 == max_code || 2 * c.m as usize == max_code, "m-at-the-limit");
+    obs.nontrivial();
+    if seen > max_code {
+        fail!(
+            "C06:custom-lit:code-beyond-max",
+            "a literal type with MAX_CODE = {max_code} was handed code {seen} by the {} parser ({:?}); input {:?}",
+            if c.binary { "binary" } else { "ASCII" },
+            r,
+            show_bytes(&text)
+        );
+    }
+    if r.is_ok() && !fits {
+        fail!(
+            "C06:custom-lit:header-limit",
+            "M = {} was accepted for a literal type with MAX_CODE = {max_code} (literal 2M+1 = {} does not fit); input {:?}",
+            c.m,
+            2 * c.m as usize + 1,
+            show_bytes(&text)
+        );
+    }
+    if let (Err(e), true) = (&r, fits) {
+        fail!(
+            "C06:custom-lit:rejected",
+            "a well-formed file with M = {} was rejected for a literal type with MAX_CODE = {max_code}: {e}; input {:?}",
+            c.m,
+            show_bytes(&text)
+        );
+    }
+    Ok(())
+}
+
 fn run(ctx: &Ctx) {
+    let n = ctx.share(ctx.tier.pick(40_000, 1_200_000));
+    let strat = (
+        any::<bool>(),
+        0u8..4,
+        prop_oneof![3 => 12u8..=17, 1 => 0u8..=20],
+        0u8..=20,
+        0u8..=6,
+        proptest::collection::vec(prop_oneof![2 => any::<u8>(), 1 => Just(255u8), 1 => Just(254u8)], 0..4),
+    )
+        .prop_map(|(binary, max_code, m, inputs, gates, outputs)| CustomLitCase {
+            binary,
+            max_code,
+            m,
+            inputs,
+            gates,
+            outputs,
+        });
+    ctx.run_cases("custom-literal-type", n, strat, check_custom_lit);
     let n = ctx.share(ctx.tier.pick(1_500_000, 90_000_000));
     let strat = (
         prop_oneof![
@@ -412,6 +549,10 @@ fn run(ctx: &Ctx) {
 
 fn replay(oracle: &str, v: &Value) -> Option<CheckResult> {
     match oracle {
+        "custom-literal-type" => Some(match replay_from_file::<CustomLitCase>(v) {
+            Ok(c) => check_custom_lit(&c, &mut Obs::default()),
+            Err(e) => Err(Failure::new("C06:decode", e)),
+        }),
         "reference-reading" => Some(match replay_from_file::<Case>(v) {
             Ok(c) => check(&c, &mut Obs::default()),
             Err(e) => Err(Failure::new("C06:decode", e)),
